@@ -247,11 +247,34 @@ def count_checkpoints(algorithm):
 # results held at each COMPLETED save_results call, and the simulation object itself (final psi also
 # when save_psi=False).  A deterministic clock for `save_every_x_seconds`.
 # --------------------------------------------------------------------------------------------
-OBS = {'group': [], 'saves': [], 'sim': None, 'sweeps': []}
+OBS = {'group': [], 'saves': [], 'sim': None, 'sweeps': [], 'engine_init': []}
 
 
 def reset_obs():
-    OBS['group'], OBS['saves'], OBS['sim'], OBS['sweeps'] = [], [], None, []
+    OBS['group'], OBS['saves'], OBS['sim'], OBS['sweeps'], OBS['engine_init'] = [], [], None, [], []
+
+
+def counters_of(holder):
+    """The counters an algorithm carries across a resume, read from an engine or from a resume_data dictionary
+    (same keys): evolved_time, sweeps, trunc_err as [eps, ov], number of entries of sweep_stats.  Missing -> absent."""
+    get = (lambda k: holder.get(k, _MISSING)) if isinstance(holder, dict) else (lambda k: getattr(holder, k, _MISSING))
+    out = {}
+    v = get('evolved_time')
+    if v is not _MISSING:
+        out['evolved_time'] = [float(v.real), float(v.imag)]      # float | complex
+    v = get('sweeps')
+    if v is not _MISSING:
+        out['sweeps'] = int(v)
+    v = get('trunc_err')
+    if v is not _MISSING and v is not None:
+        out['trunc_err'] = [float(v.eps), float(v.ov)]
+    v = get('sweep_stats')
+    if v is not _MISSING and v is not None:
+        out['n_sweep_stats'] = sorted(set(len(x) for x in v.values())) if len(v) else []
+    return out
+
+
+_MISSING = object()
 
 
 def _n_records(sim):
@@ -264,6 +287,16 @@ def instrument():
     if getattr(Simulation, '_c18_instrumented', False):
         return
     o_group, o_split, o_save = Simulation.group_sites_for_algorithm, Simulation.group_split, Simulation.save_results
+    o_init_alg = Simulation.init_algorithm
+
+    def init_algorithm(self, **kwargs):
+        # the counters of the engine right after it was (re-)created, before run_algorithm / resume_run_algorithm
+        r = o_init_alg(self, **kwargs)
+        ev = counters_of(self.engine)
+        ev['n_records'] = _n_records(self)
+        ev['loaded'] = bool(self.loaded_from_checkpoint)
+        OBS['engine_init'].append(ev)
+        return r
 
     def group_sites_for_algorithm(self):
         OBS['sim'] = self
@@ -293,6 +326,7 @@ def instrument():
     Simulation.group_sites_for_algorithm = group_sites_for_algorithm
     Simulation.group_split = group_split
     Simulation.save_results = save_results
+    Simulation.init_algorithm = init_algorithm
     Simulation._c18_instrumented = True
 
     # the state of the DMRG engine that an optimizing sweep starts from: [sweeps done so far, [class, amplitude] of the
